@@ -223,6 +223,9 @@ class ColumnProfile:
 
         if self.kmv_hashes and profile.kmv_hashes:
             new_profile.kmv_hashes = sorted(set(self.kmv_hashes + profile.kmv_hashes))[:KVM_SIZE]
+        elif profile.kmv_hashes:
+            # nothing to merge into: keep the only sketch there is (ours is already copied)
+            new_profile.kmv_hashes = list(profile.kmv_hashes)
 
         return new_profile
 
